@@ -389,6 +389,25 @@ def iterTable {V : Type} (cv : Conv V) (cfg : Cfg V) : Sheet → Out V
       | .error e => ⟨[], some e⟩
       | .ok slots => dataRows cv cfg slots (ladderPos cfg titles) none rest
 
+/-! ## the wrappers around `iter_table` -/
+
+/-- `list(generator)`: an exception raised by the generator loses what was yielded before -/
+def readAll {V : Type} (out : Out V) : Except Err (List (Option (Obj V))) :=
+  match out.err with
+  | some e => .error e
+  | none => .ok out.objs
+
+/-- `read_table(worksheet, cls, rules, stop_on=…, ladder_format=…)` -/
+def readTable {V : Type} (cv : Conv V) (cfg : Cfg V) (s : Sheet) : Except Err (List (Option (Obj V))) :=
+  readAll (iterTable cv cfg s)
+
+/-- `TableReader.read_list(worksheet)` of a class with `ATTR_RULES = rules`: `iter_xls` calls
+`iter_table(worksheet, cls, cls.ATTR_RULES)`, i.e. always with the default end rule and never as a
+ladder (the class attributes `STOP_ON` / `LADDER_FORMAT` are not passed on) -/
+def readList {V : Type} (cv : Conv V) (numId : Nat) (rules : List (Rule V)) (s : Sheet) :
+    Except Err (List (Option (Obj V))) :=
+  readTable cv ⟨.blankAll, false, numId, rules⟩ s
+
 /-! ## `get_attr_origin(attr[, range_key])` (strict, without the worksheet prefix) -/
 
 def rangeDescr : List (List Char) → List Char
